@@ -50,6 +50,10 @@ CLEAN_STMTS = [
     "let x2 = [7, if true {{ let n = 0; loop {{ n = n + 1; if n < 3 {{ continue; }} break; }} n }}, 9]; f(2 * match i % 2 {{ 0 => {{ let m = 0; while m < 2 {{ m = m + 1; if m == 1 {{ continue; }} }} m }}, _ => 1 }});",
     "let x3 = f(1 + if {C} {{ let n = 0; while n < 4 {{ n = n + 1; if n == 2 {{ break; }} }} n }} else {{ 5 }}) + 1;",
     "map {{i % 7: 1, i % 5: 2, 1: 3, 1.0: 4}}; map {{1: 1, 1: 2, 1: 3}}; [map {{\"k\": i, \"k\": i}}, 1];",
+    # layer expressions (null without a current packet) and calls of functions that end without a value
+    "$0; $1; let k = 2; $k; ($1); [$0, $1, $k]; f($2); if $3 {{ 1 }}; $0 == null && $1 == null;",
+    "nop(); endlet(i); endwhile(i); endblock(i); endif(i); 1 + len([nop()]); [nop(), endlet(1), endwhile(2)]; f(endblock(3));",
+    "if {C} {{ nop(); {K}; }} endlet($1); let w = [endwhile(i), $0];",
 ]
 DIRTY_STMTS = [
     "1 + if {C} {{ {K}; }} else {{ 2 }};",
@@ -78,7 +82,8 @@ LOOPS = [
     ("in-fn-while-and", "fn run() {{ let k = 0; while k < 3 {{ k = k + 1; let i = 0; while i < {N} && true {{ i = i + 1; {BODY} }} }} k }} run(); run();"),
     ("while-value-cond", "let i = 0; let n = {N}; while n {{ n = n - 1; i = i + 1; {BODY} }}"),
 ]
-PRE = "let a = [0, 1]; fn f(x) { x }\n"
+PRE = ("let a = [0, 1]; fn f(x) { x }\nfn nop() { } fn endlet(x) { let q = x; } fn endwhile(x) { let j = 0; while j < 1 { j = j + 1; } } "
+       "fn endblock(x) { { x; } } fn endif(x) { if x > 1 { let q = 1; } }\n")
 
 # function bodies that leave through `return` from statement positions and from operand positions with operands
 # pending in the callee: the caller's statement must be balanced however the callee returns
@@ -118,7 +123,7 @@ def run(chk):
                        "function body leaves its value by design); the height invariant per program point and the top-level "
                        "boundaries cover the property without that false alarm"]
     chk.floor = 1200
-    chk.rule += '; plus functions left through return from statement and operand positions (15 bodies x 4 callers), loop conditions built from && / ||, match over literal patterns of every kind, map literals with coinciding keys'
+    chk.rule += '; plus functions left through return from statement and operand positions (15 bodies x 4 callers), loop conditions built from && / ||, match over literal patterns of every kind, map literals with coinciding keys, layer expressions ($n), calls of functions that end without a value'
     jobs = []
     iters = [3, 100, 10000]
     for (lname, ltmpl) in LOOPS:
